@@ -255,6 +255,63 @@ def run(tier, seed):
             rep.violation("the Go types of a column declared %r%s depend on the DDL route: declared directly %s, through route %s %s"
                           % (sp, " NOT NULL" if nn else "", base[(sp, nn)][0], rname, view),
                           {"direct_schema": base[(sp, nn)][1], "route_schema": schema, "route": rname, "direct": base[(sp, nn)][0], "via_route": view})
+    # (iv) use independence: the Go type of a column depends on ITS type and nullability, not on the other columns of the
+    # package that have the same type (user-defined types are resolved by name at every use)
+    cfg = json.dumps({"version": "1", "packages": [{"path": "db", "engine": "postgresql", "schema": "schema.sql", "queries": "query.sql"}]})
+    uses = [("a", " NOT NULL"), ("b", ""), ("c", "[]"), ("d", "[] NOT NULL")]
+    jobs, meta = [], []
+    for tyname, decl in (("dims", "CREATE TYPE dims AS (w int, h int);"), ("mood", "CREATE TYPE mood AS ENUM ('ok', 'sad');"), ("text", ""), ("int2", "")):
+        orders = [uses, uses[::-1], [uses[1], uses[0], uses[3], uses[2]]]
+        for k_, order in enumerate(orders):
+            for split in (False, True):
+                if split:
+                    schema = decl + "\n" + "".join("CREATE TABLE t_%s (%s %s%s);\n" % (c_, c_, tyname, sfx) for c_, sfx in order)
+                    q = "".join("-- name: Q%s :many\nSELECT %s FROM t_%s WHERE %s = $1;\n" % (c_, c_, c_, c_) for c_, _ in order)
+                else:
+                    schema = decl + "\nCREATE TABLE t (zz boolean, %s);\n" % ", ".join("%s %s%s" % (c_, tyname, sfx) for c_, sfx in order)
+                    q = "".join("-- name: Q%s :many\nSELECT %s FROM t WHERE %s = $1;\n" % (c_, c_, c_) for c_, _ in order)
+                    # the same column as the target of an assignment, in every form an assignment can take
+                    q += "".join("-- name: U%s :exec\nUPDATE t SET %s = $1;\n-- name: M%s :exec\nUPDATE t SET (zz, %s) = (DEFAULT, $1);\n"
+                                 "-- name: N%s :exec\nUPDATE t SET (%s, zz) = ($1, true);\n-- name: I%s :exec\nINSERT INTO t (zz, %s) VALUES (true, $1);\n" % (c_, c_, c_, c_, c_, c_, c_, c_)
+                                 for c_, _ in order)
+                jobs.append({"op": "generate", "summary": True, "nofiles": True, "files": {"sqlc.json": cfg, "schema.sql": schema, "query.sql": q}})
+                meta.append((tyname, k_, split, schema))
+        for c_, sfx in uses:       # each use on its own: the reference
+            schema = decl + "\nCREATE TABLE t (%s %s%s);\n" % (c_, tyname, sfx)
+            q = "-- name: Q%s :many\nSELECT %s FROM t WHERE %s = $1;\n" % (c_, c_, c_)
+            jobs.append({"op": "generate", "summary": True, "nofiles": True, "files": {"sqlc.json": cfg, "schema.sql": schema, "query.sql": q}})
+            meta.append((tyname, "alone", c_, schema))
+
+    def use_types(r):
+        out = {}
+        for st in r["summary"].get("db/models.go", {}).get("structs", []):
+            for f in st["fields"]:
+                out[("model", f["name"])] = f["type"]
+        for m_ in r["summary"].get("db/query.sql.go", {}).get("methods", []):
+            if m_["recv"] == "Queries" and len(m_["params"]) == 2:
+                if m_["name"][0] in "UMNI":
+                    out[("param", "Q" + m_["name"][1:], m_["name"][0])] = m_["params"][1]["type"]      # compared with the parameter of Q<col>
+                    continue
+                out[("param", m_["name"])] = m_["params"][1]["type"]
+                out[("result", m_["name"])] = m_["results"][0]["type"]
+        return out
+    ref = {}
+    results = list(zip(meta, run_harness(jobs)))
+    for (tyname, k_, x, schema), r in results:
+        if k_ == "alone" and r.get("ok"):
+            for key, ty in use_types(r).items():
+                ref[(tyname,) + key] = ty
+    for (tyname, k_, x, schema), r in results:
+        if k_ == "alone":
+            continue
+        rep.case(("use-independence", tyname, k_, x), nontrivial=True)
+        if not r.get("ok"):
+            rep.violation("sqlc fails on columns of type %s used with several nullabilities: %s" % (tyname, r.get("stderr") or r.get("panic")), {"schema": schema})
+            continue
+        bad = [(key, ty, ref.get((tyname,) + key[:2])) for key, ty in use_types(r).items() if (tyname,) + key[:2] in ref and ref[(tyname,) + key[:2]] != ty]
+        if bad:
+            rep.violation("the Go type of a %s column depends on the other columns of that type in the package: %s (type in the package, type when alone)" % (tyname, bad[:3]),
+                          {"schema": schema, "differs": bad})
     import c08
     c08.history_subcheck(rep, PROP, seed, 2500 if tier == "quick" else 20000)
     rep.extra["exhaustive"] = True
